@@ -153,8 +153,9 @@ def run(ctx):
         ev = subl.evidence_matches(P)
         bad7 = []
         n7 = 0
+        is_alloc = lambda tt: (callee_name(tt) or "").endswith(("HashMap::new", "HashMap::with_capacity", "BTreeMap::new"))
         for (e, tb, f) in ev:
-            for lf in b.trace(f[1]):
+            for lf in b.trace(f[1], (), is_alloc):          # container identity: stop at the allocation, do not look at its content
                 n7 += 1
                 if not (lf.kind == "call" and lf.data[0] in outer_alloc):
                     bad7.append(leaf_s(b, lf))
@@ -162,7 +163,7 @@ def run(ctx):
         for (i, t) in b.calls_named("std::collections::HashMap::get", "std::collections::HashMap::iter", "std::collections::HashMap::values"):
             ty = (t.get("arg_tys") or [""])[0]
             if "HashMap<std::string::String, std::collections::HashMap<crypto::KeyId, models::link::metadata::LinkMetadata>>" in ty:
-                for lf in b.trace(t["args"][0]):
+                for lf in b.trace(t["args"][0], (), is_alloc):
                     n7 += 1
                     # the LinkMetadata map is built by the sub-layout stage from the verified map
                     if not (lf.kind == "call" and (callee_name(lf.data[1]) or "").endswith("HashMap::new")):
